@@ -63,6 +63,8 @@ pub fn build_graph<IntT: for<'a> UInt<'a>>(
     kmer_iter
         .par_bridge()
         .for_each(|(int_kmer, int_middle_base_vec)| {
+            #[cfg(feature = "verif-hooks")]
+            crate::verif_hooks::sched_point(1);
             let (kmer_left, kmer_right) = decode_kmer(len_kmer, int_kmer, mask, mask);
 
             // combine samples by middle-base using degenerate code
@@ -100,16 +102,22 @@ pub fn build_graph<IntT: for<'a> UInt<'a>>(
                     .entry(encoded_kmer_1)
                     .or_default()
                     .push(encoded_kmer_2);
+                #[cfg(feature = "verif-hooks")]
+                crate::verif_hooks::sched_point(2);
 
                 all_kmers
                     .entry(IntT::rev_comp(encoded_kmer_2, len_kmer - 1))
                     .or_default()
                     .push(IntT::rev_comp(encoded_kmer_1, len_kmer - 1));
+                #[cfg(feature = "verif-hooks")]
+                crate::verif_hooks::sched_point(3);
 
                 let encode_full = IntT::encode_kmer_str(&full_kmer);
                 kmer_samples
                     .entry(encode_full)
                     .or_insert_with(|| bitset_samples.clone());
+                #[cfg(feature = "verif-hooks")]
+                crate::verif_hooks::sched_point(4);
                 kmer_samples
                     .entry(IntT::rev_comp(encode_full, len_kmer))
                     .or_insert_with(|| bitset_samples.clone());
